@@ -89,6 +89,7 @@ type procSpec struct {
 	FinalMs  int    `json:"final_ms,omitempty"`
 	Fork     bool   `json:"fork,omitempty"`      // the shell forks a worker child (pipeline / compound command)
 	LingerMs int    `json:"linger_ms,omitempty"` // closes its output after the last chunk and stays alive
+	DetachMs int    `json:"detach_ms,omitempty"` // leaves a process behind, outside the process group, that holds the output pipe this long
 	Bulk     int    `json:"bulk,omitempty"`      // bytes of further output after Text (more than a pipe holds, e.g. seq 100000)
 }
 
